@@ -376,6 +376,12 @@ impl Api {
     pub fn ke_key_encode(&self, is_pk: bool, key: &[u8], codec: Codec) -> R<Blob> {
         monitored("ke_key_encode", || if is_pk { self.s.ke_pk_encode(key, codec) } else { self.s.ke_sk_encode(key, codec) })
     }
+    pub fn ke_raw_pk(&self, sk: &[u8]) -> R<Vec<u8>> {
+        self.simple("ke_raw_pk", vec![Arg::B(sk.to_vec())], || self.s.ke_raw_pk(sk))
+    }
+    pub fn ke_raw_dh(&self, sk: &[u8], pk: &[u8]) -> R<Vec<u8>> {
+        self.simple("ke_raw_dh", vec![Arg::B(sk.to_vec()), Arg::B(pk.to_vec())], || self.s.ke_raw_dh(sk, pk))
+    }
     pub fn ke_keypair_pk(&self, sk: &[u8]) -> R<Vec<u8>> {
         self.simple("ke_keypair_pk", vec![Arg::B(sk.to_vec())], || self.s.ke_keypair_pk(sk))
     }
@@ -569,6 +575,8 @@ pub fn reexec(c: &CallRec) -> (Result<Vec<String>, E>, Vec<String>) {
             };
             api.same(k, &a_blob(&a[1]), &a_blob(&a[2])).map(|v| hx(&[&vec![v as u8]]))
         }
+        "ke_raw_pk" => h1(api.ke_raw_pk(&a_b(&a[0]))),
+        "ke_raw_dh" => h1(api.ke_raw_dh(&a_b(&a[0]), &a_b(&a[1]))),
         "ke_keypair_pk" => h1(api.ke_keypair_pk(&a_b(&a[0]))),
         "ke_public_key" => h1(api.ke_public_key(&a_b(&a[0]))),
         "ke_dh" => h1(api.ke_dh(&a_b(&a[0]), &a_b(&a[1]))),
